@@ -22,11 +22,15 @@ import yaql
 from yaql.language import exceptions as yexc
 
 GEN = ["scalarops"]
-RULE = ("all ordered pairs of the boundary corpus (ints 0, +-1, +-2, +-7, 2^53+1, 2^63-1, 2^63, 2^63+1, -(2^63)-1, +-10^40; "
-        "floats +-0.0, +-1, 0.5, +-2.5, 2^53, 2^63, 1e40, +-1e308, 5e-324, +-inf, nan; strings '', one/multi code point, "
-        "combining, astral; null, true, false; list/tuple) under each of the 12 binary operators, every value under each of the "
-        "3 unary operators, plus seeded random triples ($a OP $b) OP2 $c over scalars; operands bound as variables; "
-        "non-trivial = a payload ran or an operand is null/boolean; distinct = distinct (operators, operands)")
+RULE = ("all ordered pairs of the boundary corpus (ints 0, +-1, 2, -7, 2^63-1, 2^63+1, 10^40 [+ -2, 7, 3, 2^53+1, 2^63, -(2^63)-1, "
+        "-10^40 in thorough]; floats +-0.0, 1, -2.5, 1e308, 5e-324, 2^63, +-inf, nan [+ more]; strings '', ASCII, precomposed and "
+        "decomposed spellings of the same text (e-acute, A-ring, ANGSTROM SIGN), Hangul jamo/syllable, astral, lone surrogate "
+        "[+ OHM SIGN, ligature, flag, ...]; null, true, false; list/tuple) under each of the 12 binary operators, every value under "
+        "each of the 3 unary operators, plus seeded random triples ($a OP $b) OP2 $c over scalars incl. seeded random "
+        "ints/floats/strings; the pair grid is run in THREE configurations (default engine+context; engine option "
+        "yaql.iterableDicts; legacy factory + legacy context - the two latter over an 18-value corpus in the quick tier); "
+        "operands bound as variables; non-trivial = a payload ran or an operand is null/boolean; distinct = distinct "
+        "(configuration, operators, operands)")
 TRUSTED = ["Model/Scalars.v payload semantics are a hand transcription of math.py/strings.py/common.py/boolean.py and the "
            "repetition/membership overloads of collections.py; tied by this correspondence",
            "harness/gen_scalarops.py: acceptance rows come from the live value_type.check on representatives of each kind "
@@ -35,8 +39,9 @@ TRUSTED = ["Model/Scalars.v payload semantics are a hand transcription of math.p
            "used by the correspondence only; theorems quantify over an abstract float type",
            "payload instrumentation for 'which overload ran': payload attribute of the FunctionDefinition objects of a "
            "separate create_context() wrapped; values are additionally observed on an untouched context"]
-ASSUMPTIONS = ["operands reach the operators as variables of a child context of yaql.create_context() with a default engine "
-               "(no memory quota)",
+ASSUMPTIONS = ["operands reach the operators as variables of a child context; engine/context are one of the three configurations "
+               "default, {'yaql.iterableDicts': True}, legacy factory + legacy context (no memory quota; other engine options "
+               "do not reach value_type.check of the operator overloads)",
                "sequences in the corpus hold integers only; repetition results of more than 10^5 items (below the 2^62 count at which Python fails at once) are not generated",
                "NaN is excluded from the order-consistency statements (C15_order_consistent_num premises; O corpus has no NaN)",
                "float laws of C15_order_consistent_num (three-way comparison antisymmetric, undefined exactly on NaN) are "
@@ -55,8 +60,12 @@ INTS_MORE = [-2, 7, 3, 2 ** 53 + 1, 2 ** 63, -(2 ** 63) - 1, -(10 ** 40)]
 FLOATS_CORE = [0.0, -0.0, 1.0, -2.5, 1e308, 5e-324, float(2 ** 63)]
 FLOATS_MORE = [-1.0, 0.5, 2.5, float(2 ** 53), 1e40, -1e308, 1.7976931348623157e308, 2.2250738585072014e-308, 7.0]
 FLOATS_SPECIAL = [float("inf"), float("-inf"), float("nan")]
-STRS_CORE = ["", "a", "ab", "b", "\u00e9", "a\U0001F600"]
-STRS_MORE = ["A", "aa", "e\u0301", "\U0001F600", "\uffff", "ababab", "1", "\x00"]
+STRS_CORE = ["", "a", "ab", "b", "z", "\u00e9", "e\u0301", "a\U0001F600",
+             "\u00c5", "A\u030a", "\u212b",          # A-ring: precomposed, combining sequence, ANGSTROM SIGN
+             "\u1100\u1161", "\uac00",               # Hangul jamo / the syllable
+             "\ud800"]                                # lone surrogate
+STRS_MORE = ["A", "aa", "\U0001F600", "\uffff", "ababab", "1", "\x00", "\u03a9", "\u2126",   # OMEGA / OHM SIGN
+             "\u00e9t\u00e9", "e\u0301te\u0301", "\U0001F1E9\U0001F1EA", "\ufb01", "\udc00\ud800", "e\u0301\u0300"]
 OTHERS = [None, True, False]
 SEQS = [[1, 2], (1, 2), [], ()]
 SEQS_MORE = [[0], (7, 7, 7)]
@@ -86,6 +95,11 @@ def random_scalars(rng, n):
         else:
             out.append("".join(rng.choice(["a", "b", "A", "\u00e9", "\U0001F600", "\x00", "z"]) for _ in range(rng.randrange(0, 5))))
     return out
+
+
+CONFIGS = G.CONFIGS
+# the configurations other than the default one run a pair grid over this smaller set
+SMALL = [0, 1, -7, 2 ** 63 + 1, 0.0, -2.5, 1e308, "", "a", "ab", "e\u0301", None, True, False, [1, 2], (1, 2), [], ()]
 
 
 def corpus_values(full, special):
@@ -185,10 +199,10 @@ class Impl:
     """the real engine; one pristine context for values, one with recording payloads for
     'which overload ran'"""
 
-    def __init__(self):
-        self.engine = yaql.YaqlFactory().create()
-        self.ctx = yaql.create_context()
-        self.ictx = yaql.create_context()
+    def __init__(self, cfg="CDefault"):
+        self.cfg = cfg
+        self.ctx, self.engine = G.make_config(cfg)
+        self.ictx, _ = G.make_config(cfg)
         self.ran = []
         self.cache = {}
         for _, name, arity, _ in G.OPS:
@@ -231,15 +245,19 @@ class Impl:
         return obs, list(self.ran)
 
 
-_impl = None
+_impls = {}
 
 
-def impl():
-    global _impl
-    if _impl is None:
+def impl(cfg="CDefault"):
+    if not _impls:
         G.generate()           # fixes the numbering of payloads outside the model (POther n)
-        _impl = Impl()
-    return _impl
+    if cfg not in _impls:
+        _impls[cfg] = Impl(cfg)
+    return _impls[cfg]
+
+
+def cfg_of(case):
+    return case.get("cfg", "CDefault")
 
 
 def text2(sp):
@@ -325,8 +343,8 @@ def case_term(case, obs, ran, unchecked=False):
     else:
         op, args = CTOR_OF[ops[0]], vals[:2]
         then = "(Some (%s, %s))" % (CTOR_OF[ops[1]], gval(vals[2]))
-    return "{| c_op := %s; c_args := %s; c_then := %s; c_ran := %s; c_obs := %s |}" % (
-        op, gal.lst(gval(v) for v in args), then, gal.lst(ran), gobs(obs, unchecked))
+    return "{| c_cfg := %s; c_op := %s; c_args := %s; c_then := %s; c_ran := %s; c_obs := %s |}" % (
+        cfg_of(case), op, gal.lst(gval(v) for v in args), then, gal.lst(ran), gobs(obs, unchecked))
 
 
 def case_text(case):
@@ -339,11 +357,11 @@ def case_env(case):
 
 
 def enc_case(case):
-    return {"ops": case["ops"], "vals": [enc(v) for v in case["vals"]]}
+    return {"cfg": cfg_of(case), "ops": case["ops"], "vals": [enc(v) for v in case["vals"]]}
 
 
 def dec_case(j):
-    return {"ops": list(j["ops"]), "vals": [dec(v) for v in j["vals"]]}
+    return {"cfg": j.get("cfg", "CDefault"), "ops": list(j["ops"]), "vals": [dec(v) for v in j["vals"]]}
 
 
 # ----------------------------------------------------------------------------- O: the laws
@@ -581,10 +599,10 @@ def check_laws(run, laws, names, vals, count=True):
     return out
 
 
-def report_law(run, name, vals, res):
+def report_law(run, name, vals, res, cfg="CDefault"):
     what, observed, required = res
-    run.fail("violation", "law %s: %s" % (name, what),
-             {"law": name, "vals": [enc(v) for v in vals], "values_readable": [repr(v)[:80] for v in vals],
+    run.fail("violation", "law %s%s: %s" % (name, "" if cfg == "CDefault" else " [configuration %s]" % cfg, what),
+             {"law": name, "cfg": cfg, "vals": [enc(v) for v in vals], "values_readable": [repr(v)[:80] for v in vals],
               "expression": "$a OP $b with a, b bound as variables (see 'observed' for the operators)",
               "observed": repr(observed), "required": repr(required)})
 
@@ -597,17 +615,27 @@ def load_corpus():
 
 
 def oracle(run, deep):
-    im = impl()
+    nev = 0
+    for cfg in CONFIGS:
+        nev += oracle_cfg(run, deep, cfg)
+    run.note("O: %d distinct operator evaluations on the implementation (3 configurations)" % nev)
+
+
+def oracle_cfg(run, deep, cfg):
+    im = impl(cfg)
     laws = Laws(im)
     full = deep or not run.quick
-    vals = corpus_values(full, special=False)
+    if cfg == "CDefault" or full:
+        vals = corpus_values(full and cfg == "CDefault", special=False)
+    else:
+        vals = SMALL
     seen = set()
 
     def pair(a, b):
         for n, r in check_laws(run, laws, Laws.PAIR, (a, b)):
             if n not in seen:
                 seen.add(n)
-                report_law(run, n, (a, b), r)
+                report_law(run, n, (a, b), r, cfg)
 
     for c in load_corpus():
         if len(c["vals"]) == 2 and not any(isinstance(v, float) and v != v for v in c["vals"]):
@@ -617,12 +645,14 @@ def oracle(run, deep):
         for n, r in check_laws(run, laws, Laws.SINGLE, (a,)):
             if n not in seen:
                 seen.add(n)
-                report_law(run, n, (a,), r)
+                report_law(run, n, (a,), r, cfg)
     for a, b in itertools.product(vals, vals):
         pair(a, b)
     scal = [v for v in corpus_values(True, special=True) if kind(v) not in ("list", "tuple") and v == v]
     scal += random_scalars(run.rng, run.n(40, 400))
     ntri = 20000 if deep and run.quick else run.n(3000, 150000)
+    if cfg != "CDefault":
+        ntri //= 10
     for _ in range(ntri):
         fam = run.rng.choice(["num", "num", "str", "any"])
         pool = scal if fam == "any" else [v for v in scal if family(v) == fam or (v is None and run.rng.random() < 0.3)]
@@ -630,8 +660,8 @@ def oracle(run, deep):
         for n, r in check_laws(run, laws, Laws.TRIPLE, t):
             if n not in seen:
                 seen.add(n)
-                report_law(run, n, t, r)
-    run.note("O: %d distinct operator evaluations on the implementation" % len(laws.memo))
+                report_law(run, n, t, r, cfg)
+    return len(laws.memo)
 
 
 # ----------------------------------------------------------------------------- C
@@ -660,6 +690,17 @@ def gen_cases(run):
             pool = scal
             ops = [run.rng.choice(bsp), run.rng.choice(bsp)]
         cases.append({"ops": ops, "vals": [run.rng.choice(pool) for _ in range(3)]})
+    # the configurations whose options touch dispatch: the whole grid again, over a smaller corpus in the quick tier
+    for cfg in CONFIGS[1:]:
+        cvals = SMALL if run.quick else corpus_values(False, special=True)
+        for c in load_corpus():
+            cases.append(dict(c, cfg=cfg))
+        for sp in [s for _, s in UNARY]:
+            for a in cvals:
+                cases.append({"cfg": cfg, "ops": [sp], "vals": [a]})
+        for _, sp in BINARY:
+            for a, b in itertools.product(cvals, cvals):
+                cases.append({"cfg": cfg, "ops": [sp], "vals": [a, b]})
     return cases
 
 
@@ -697,19 +738,20 @@ def triple_mode(im, case):
 
 
 def correspondence(run):
-    im = impl()
-    laws = Laws(im)
+    lawsof = {}
     terms, meta = [], []
     for i, case in enumerate(gen_cases(run)):
+        im = impl(cfg_of(case))
         mode = triple_mode(im, case)
         if too_big(case) or mode == "skip":
             run.cov["skipped"] += 1
             continue
         plain, traced, ran = observe(im, case)
         ks = tuple(kind(v) for v in case["vals"])
-        run.case((tuple(case["ops"]), tuple(canon(v) for v in case["vals"]), ks),
+        run.case((cfg_of(case), tuple(case["ops"]), tuple(canon(v) for v in case["vals"]), ks),
                  nontrivial=bool(ran) or any(k in ("null", "bool") for k in ks))
         run.count("op:" + " ".join(case["ops"]))
+        run.count("cfg:" + cfg_of(case))
         run.count("kinds:" + ",".join(ks))
         run.count("outcome:" + (plain[1] if plain[0] == "err" else "value:" + plain[1][0]))
         if i % 1201 == 0:
@@ -724,11 +766,15 @@ def correspondence(run):
             run.cov["skipped"] += 1
             continue
         meta.append((case, plain, ran))
-    bad = run.coq_mismatches(HEADER, "case", "case_ok registry", terms, shard=400)
+    bad = run.coq_mismatches(HEADER, "case", "case_ok registry_of", terms, shard=400)
     reported = set()
     for i in bad[:200]:
         case, plain, ran = meta[i]
         vals = case["vals"]
+        cfg = cfg_of(case)
+        if cfg not in lawsof:
+            lawsof[cfg] = Laws(impl(cfg))
+        laws = lawsof[cfg]
         fails, lvals = [], tuple(vals)
         if len(vals) == 2 and not any(isinstance(v, float) and v != v for v in vals):
             fails = check_laws(run, laws, Laws.PAIR, lvals, count=False)
@@ -737,7 +783,7 @@ def correspondence(run):
                 fails = check_laws(run, laws, Laws.PAIR, lvals, count=False)
         elif len(vals) == 1:
             fails = check_laws(run, laws, Laws.SINGLE, lvals, count=False)
-        key = (tuple(case["ops"]), tuple(kind(v) for v in vals), plain[0], fails[0][0] if fails else None)
+        key = (cfg, tuple(case["ops"]), tuple(kind(v) for v in vals), plain[0], fails[0][0] if fails else None)
         if key in reported:
             continue
         reported.add(key)
@@ -745,18 +791,18 @@ def correspondence(run):
                 "implementation": repr(plain), "payloads_ran": ran, "model": model_says(run, case)}
         if fails:
             n, (what, observed, required) = fails[0]
-            data.update({"law": n, "vals": [enc(v) for v in lvals], "observed": repr(observed), "required": repr(required)})
-            run.fail("violation", "%s on %s: implementation and model differ, and law %s fails: %s"
-                     % (case_text(case), ",".join(kind(v) for v in vals), n, what), data)
+            data.update({"law": n, "cfg": cfg, "vals": [enc(v) for v in lvals], "observed": repr(observed), "required": repr(required)})
+            run.fail("violation", "%s on %s [%s]: implementation and model differ, and law %s fails: %s"
+                     % (case_text(case), ",".join(kind(v) for v in vals), cfg, n, what), data)
         else:
-            run.fail("mismatch", "%s on (%s): implementation %r / payloads %s differ from the model"
-                     % (case_text(case), ",".join(kind(v) for v in vals), plain, ran), data)
+            run.fail("mismatch", "%s on (%s) [%s]: implementation %r / payloads %s differ from the model"
+                     % (case_text(case), ",".join(kind(v) for v in vals), cfg, plain, ran), data)
 
 
 def model_says(run, case):
     try:
         t = case_term(case, ("err", "ENoMatch"), [])
-        return run.coq_eval(HEADER, "run_case registry %s" % t)[-600:]
+        return run.coq_eval(HEADER, "run_case (registry_of %s) %s" % (cfg_of(case), t))[-600:]
     except Exception as e:     # noqa - diagnostics only
         return "unavailable: %r" % (e,)
 
@@ -764,7 +810,7 @@ def model_says(run, case):
 # ----------------------------------------------------------------------------- replay
 def replay(run, data):
     d = data["data"]
-    im = impl()
+    im = impl(d.get("cfg") or (d.get("case") or {}).get("cfg") or "CDefault")
     if "law" in d and "vals" in d:
         laws = Laws(im)
         vals = tuple(dec(v) for v in d["vals"])
@@ -791,5 +837,5 @@ def replay(run, data):
         mode = triple_mode(im, case)
         if mode == "skip":
             return True
-        return not run.coq_mismatches(HEADER, "case", "case_ok registry", [case_term(case, plain, ran, mode == "unchecked")])
+        return not run.coq_mismatches(HEADER, "case", "case_ok registry_of", [case_term(case, plain, ran, mode == "unchecked")])
     return False
